@@ -50,7 +50,16 @@ typedef embedded_pairing_wkdibe_params_t params_t;
 typedef embedded_pairing_wkdibe_secretkey_t secretkey_t;
 static const int L = 4;
 
-static unsigned long long n_calls = 0, n_accepted = 0, n_lengths_ok = 0, n_remarshal = 0;
+static unsigned long long n_calls = 0, n_accepted = 0, n_lengths_ok = 0, n_remarshal = 0, n_used = 0;
+
+/* When the buffer being parsed is, byte for byte, what the library itself marshalled from a valid object, the object that unmarshal
+ * returns is a valid argument for every other call ("every other API call on valid arguments ..."): it is then USED (g_use set by the
+ * driver for exactly those buffers) - an unmarshalled key is resampled, qualified and used to decrypt, unmarshalled parameters encrypt. */
+struct World;
+static World* g_world = NULL;
+static bool g_use = false;
+static void use_params(const params_t* p);
+static void use_secretkey(const secretkey_t* k);
 
 /* one parse of an untrusted buffer through the Go protocol; the buffer is copied into an exact-length heap block */
 static void parse_params(const uint8_t* data, size_t len, bool comp, bool checked) {
@@ -72,6 +81,7 @@ static void parse_params(const uint8_t* data, size_t len, bool comp, bool checke
             embedded_pairing_wkdibe_params_marshal(out, &p, comp);
             n_remarshal++;
             free(out);
+            if (g_use) use_params(&p);
         }
         free(p.h);
     }
@@ -97,6 +107,7 @@ static void parse_secretkey(const uint8_t* data, size_t len, bool comp, bool che
             embedded_pairing_wkdibe_secretkey_marshal(out, &k, comp);
             n_remarshal++;
             free(out);
+            if (g_use) use_secretkey(&k);
         }
         free(k.b);
     }
@@ -149,6 +160,66 @@ static void build_world(World& w, bool signatures) {
     embedded_pairing_lqibe_decrypt(sym2, sizeof(sym2), &w.lqct, &w.lqsk, &w.lqid, hash_fill);
 }
 
+static void use_params(const params_t* p) {
+    /* encrypt to the world key's pattern under the unmarshalled parameters; the world key must open it (result not judged here:
+     * that is C15's business - the calls run under the sanitizers) */
+    embedded_pairing_wkdibe_attribute_t attrs[2];
+    memset(attrs, 0, sizeof(attrs));
+    attrs[0].idx = 1; ((uint8_t*) &attrs[0].id)[0] = 7;
+    attrs[1].idx = (uint32_t) (p->l - 1); ((uint8_t*) &attrs[1].id)[0] = 9;
+    embedded_pairing_wkdibe_attributelist_t al;
+    al.attrs = attrs; al.length = (p->l - 1 > 1) ? 2 : 1; al.omitAllFromKeysUnlessPresent = false;
+    embedded_pairing_wkdibe_gt_t msg, back;
+    embedded_pairing_wkdibe_random_gt(&msg, det_random);
+    embedded_pairing_wkdibe_ciphertext_t ct;
+    embedded_pairing_wkdibe_encrypt(&ct, &msg, p, &al, det_random);
+    embedded_pairing_wkdibe_decrypt_master(&back, &ct, &g_world->msk);
+    embedded_pairing_wkdibe_precomputed_t pre;
+    embedded_pairing_wkdibe_precompute(&pre, p, &al);
+    if (p->signatures) {
+        embedded_pairing_wkdibe_scalar_t m;
+        memset(&m, 0x31, sizeof(m));
+        embedded_pairing_wkdibe_verify(p, &al, &g_world->sig, &m);
+    }
+    n_used++;
+}
+
+static void use_secretkey(const secretkey_t* k) {
+    const params_t* p = &g_world->params;
+    embedded_pairing_wkdibe_attribute_t attrs[2];
+    memset(attrs, 0, sizeof(attrs));
+    attrs[0].idx = 1; ((uint8_t*) &attrs[0].id)[0] = 7;
+    embedded_pairing_wkdibe_attributelist_t al1;
+    al1.attrs = attrs; al1.length = 1; al1.omitAllFromKeysUnlessPresent = false;
+    embedded_pairing_wkdibe_precomputed_t pre;
+    embedded_pairing_wkdibe_precompute(&pre, p, &al1);
+    secretkey_t k2;
+    memset(&k2, 0, sizeof(k2));
+    k2.b = (embedded_pairing_wkdibe_freeslot_t*) malloc((size_t) (k->l > 0 ? k->l : 1) * sizeof(embedded_pairing_wkdibe_freeslot_t));
+    embedded_pairing_wkdibe_resamplekey(&k2, p, &pre, k, true, det_random);
+    embedded_pairing_wkdibe_gt_t back;
+    embedded_pairing_wkdibe_decrypt(&back, &g_world->ct, &k2);
+    if (k->l > 0) {
+        /* fix the key's last free slot (its index is above the fixed slot 1 in the world key) */
+        uint32_t idx = k->b[k->l - 1].idx;
+        if (idx > 1 && idx < (uint32_t) p->l) {
+            attrs[1].idx = idx; ((uint8_t*) &attrs[1].id)[0] = 9;
+            embedded_pairing_wkdibe_attributelist_t al2;
+            al2.attrs = attrs; al2.length = 2; al2.omitAllFromKeysUnlessPresent = false;
+            embedded_pairing_wkdibe_qualifykey(&k2, p, k, &al2, det_random);
+            embedded_pairing_wkdibe_nondelegable_qualifykey(&k2, p, k, &al2);
+            if (k->signatures) {
+                embedded_pairing_wkdibe_signature_t sg;
+                embedded_pairing_wkdibe_scalar_t m;
+                memset(&m, 0x31, sizeof(m));
+                embedded_pairing_wkdibe_sign(&sg, p, k, &al2, &m, det_random);
+            }
+        }
+    }
+    free(k2.b);
+    n_used++;
+}
+
 /* positions of embedded elements (offset, size) in the marshalled params / key for corruption fills */
 static size_t element_offset(bool key, bool comp, bool sig, int k, size_t* size) {
     size_t g1 = comp ? 48 : 96, g2 = comp ? 96 : 192;
@@ -183,6 +254,7 @@ int main(int argc, char** argv) {
     bool sig = true;
     World w;
     build_world(w, sig);
+    g_world = &w;
 
     if (!strcmp(kind, "params") || !strcmp(kind, "secretkey")) {
         bool key = !strcmp(kind, "secretkey");
@@ -211,12 +283,14 @@ int main(int argc, char** argv) {
                 if (fb < 3) base[0] = firsts[fb];
                 else if (strcmp(fill, "valid") && strncmp(fill, "corrupt", 7)) { continue; }      /* 4th variant: the object's own first byte */
                 snprintf(g_case, sizeof(g_case), "%s compressed=%d checked=%d fill=%s len=%zu first=%d", kind, comp, checked, fill, len, fb < 3 ? firsts[fb] : -1);
+                g_use = (fb == 3 && len == vlen && !strcmp(fill, "valid"));
                 if (key) parse_secretkey(base, len, comp, checked); else parse_params(base, len, comp, checked);
+                g_use = false;
                 base[0] = saved;
             }
         }
-        printf("STAT {\"kind\":\"%s\",\"compressed\":%d,\"checked\":%d,\"fill\":\"%s\",\"calls\":%llu,\"lengths_accepted\":%llu,\"objects_accepted\":%llu,\"remarshalled\":%llu,\"last_len\":%zu}\n",
-               kind, comp, checked, fill, n_calls, n_lengths_ok, n_accepted, n_remarshal, end);
+        printf("STAT {\"kind\":\"%s\",\"compressed\":%d,\"checked\":%d,\"fill\":\"%s\",\"calls\":%llu,\"lengths_accepted\":%llu,\"objects_accepted\":%llu,\"remarshalled\":%llu,\"used_afterwards\":%llu,\"last_len\":%zu}\n",
+               kind, comp, checked, fill, n_calls, n_lengths_ok, n_accepted, n_remarshal, n_used, end);
         return 0;
     }
 
